@@ -14,6 +14,13 @@ GHOST_DL_DEFS
 #include "contracts/io.h"
 #undef write_data
 #include "contracts/io_ww.h"
+/* tell_data: the contract zck_write_zck_header_cb relies on (text in contracts/dl.h; repeated here verbatim would
+ * drag in the whole download-side header, so the unit includes that header) */
+#include "stubs/libc_mem.h"
+GHOST_MEM_DEFS
+#include "stubs/regex.h"
+#include "contracts/hashfn.h"
+#include "contracts/dl.h"
 #include "extracted_zalloc.c"
 #include "src/lib/io.c"
 
@@ -41,6 +48,18 @@ void h_write_data_ww(void) {
     V_COVER(r == 0 && in.err0 == 0 && g_ww_hit == in.ww_hit0 + 1);
     V_COVER(r == -1);
     V_COVER(r == 1 && g_io_failed == 0);
+}
+
+void h_tell_data(void) {
+    IN_ww in = nondet_IN_ww();
+    zckCtx *z = calloc(1, sizeof(*z));
+    V_ASSUME(z != NULL);
+    z->fd = in.any_fd;
+    for(int i = 0; i < G_NFD; i++) g_fpos[i] = in.pos0[i];
+    g_off_t p0 = g_fpos[G_IX(in.any_fd)];
+    ssize_t r = tell_data(z);
+    V_ASSERT(g_fpos[G_IX(in.any_fd)] == p0, "C12,C05.tell_data.position_unchanged");
+    V_COVER(r == -1); V_COVER(r > 0);
 }
 
 #ifdef VERIF_NATIVE
